@@ -14,7 +14,7 @@ def run(v, tier):
                         'symbol numbers are compared through the first-use table logged from the serializer; the table must be injective and stable across the three files',
                         'over-size modules: the only conforming outcome is an exception (no accepted triple)']
     # over-size modules: more than 256 symbols / variable ids >= 256 / memory index >= 256 must be refused
-    big = exprs.big_modules([300])
+    big = exprs.big_modules([300])[:1]        # (without the encodable chain modules)
     big.append({'lib': False, 'axioms': [pi2v.EV(256)], 'proofs': []})
     big.append({'lib': False, 'axioms': [pi2v.MV(300)], 'proofs': []})
     big.append({'lib': False, 'axioms': [pi2v.EX(256, pi2v.EV(0))], 'proofs': []})
